@@ -198,3 +198,25 @@ Definition c19_ob_ok (initial max_size : Z) (o : tx_obs) : bool :=
 
 Definition c19_ok (initial max_size : Z) (obs : list tx_obs) : bool :=
   forallb (c19_ob_ok initial max_size) obs.
+
+(* ---- C19 "Growing the buffer from its initial to its maximum size never loses, duplicates or reorders
+   the bytes it holds", as a predicate over what the correspondence prints after every operation: the
+   result kind, the ring length and a hash of the ring content.  After a grow operation both are what they
+   were after the previous operation. *)
+Definition ring_hashZ (l : list Z) : Z :=
+  fst (fold_left (fun hp b => ((fst hp + (b + 1) * snd hp) mod 1000000007, (snd hp * 31) mod 1000000007))
+                 l (0, 1)).
+
+Definition grow_view (obs : list tx_obs) : list (tx_out * Z * Z) :=
+  map (fun o => (to_out o, Z.of_nat (length (to_ring o)), ring_hashZ (to_ring o))) obs.
+
+Fixpoint c19_grow_scan (prev_len prev_hash : Z) (v : list (tx_out * Z * Z)) : bool :=
+  match v with
+  | [] => true
+  | (out, len, h) :: r =>
+      (match out with TxGrow _ => (len =? prev_len) && (h =? prev_hash) | _ => true end) &&
+      c19_grow_scan len h r
+  end.
+
+(* a connection's ring starts empty *)
+Definition c19_grow_ok (v : list (tx_out * Z * Z)) : bool := c19_grow_scan 0 0 v.
